@@ -191,6 +191,15 @@ def obligations(tier):
             obs.append(ob_def(d, S, kind="c" if prod(d) <= 16 else "r"))
         for k in range(n):
             obs.append(ob_def(d, [k], as_int=True, dimform="array"))
+    # many subsystems (9..12), all but two or three of dimension 1: the order of the REMAINING subsystems must be the original one
+    # (a kept set such as {1, 8} is where an unordered container first iterates out of order)
+    many = [([1, 2, 1, 1, 1, 1, 1, 1, 2], [0, 2, 3, 4, 5, 6, 7]), ([1, 2, 1, 1, 1, 1, 1, 1, 3], [0, 2, 3, 4, 5, 6, 7]),
+            ([2, 1, 1, 1, 1, 1, 1, 1, 3, 1], [1, 2, 3, 4, 5, 6, 7, 9]), ([1, 3, 1, 1, 1, 1, 1, 1, 2, 1], [9, 0, 2, 3, 4, 5, 6, 7]),
+            ([2, 1, 1, 1, 1, 1, 1, 1, 2, 2], [1, 2, 3, 4, 5, 6, 7]), ([1, 1, 2, 1, 1, 1, 1, 1, 1, 1, 1, 1, 1, 1, 1, 1, 3], [0, 1] + list(range(3, 16)))]
+    if T:
+        many += [([1] * k + [2] + [1] * (15 - k) + [3], [j for j in range(17) if j not in (k, 16)]) for k in range(0, 16, 3)]
+    for d, S in many:
+        obs.append(ob_def(d, S))
     for N, d in [(4, 2), (6, 2), (6, 3), (8, 2), (8, 4), (9, 3), (12, 3), (12, 4), (4, 1), (4, 4)] + ([(16, 2), (15, 5), (20, 4)] if T else []):
         obs.append(ob_scalar_dim(N, d))
     for d in [2, 3, 4] + ([5] if T else []):
